@@ -128,6 +128,49 @@ func main() {
 		fmt.Fprintf(&b, "  (%q, [%s])%s\n", n, strings.Join(strs, "; "), sep)
 	}
 	b.WriteString("].\n\n")
+	// every Bundle composite literal inside these functions: does the new bundle share token objects with the
+	// receiver (its ts derives from the receiver's ts without re-parsing) and does it share the receiver's lock?
+	b.WriteString("(* (function, shares token objects with the receiver, shares the receiver's lock) for every Bundle literal *)\nDefinition bundle_literals : list (string * bool * bool) := [\n")
+	var lits []string
+	for _, n := range names {
+		f := funcs[n]
+		ast.Inspect(f.decl.Body, func(x ast.Node) bool {
+			cl, ok := x.(*ast.CompositeLit)
+			if !ok {
+				return true
+			}
+			if id, ok := cl.Type.(*ast.Ident); !ok || id.Name != "Bundle" {
+				return true
+			}
+			sharesObj, sharesLock, sawM := false, false, false
+			for _, el := range cl.Elts {
+				kv, ok := el.(*ast.KeyValueExpr)
+				if !ok {
+					fail(cl.Pos(), "positional Bundle literal")
+				}
+				switch kv.Key.(*ast.Ident).Name {
+				case "m":
+					sawM = true
+					sharesLock = isSel(kv.Value, f.recv, "m")
+				case "ts":
+					reparsed := false
+					ast.Inspect(kv.Value, func(y ast.Node) bool {
+						if c, ok := y.(*ast.CallExpr); ok && calleeName(c.Fun) == "parseToks" {
+							reparsed = true
+						}
+						return true
+					})
+					sharesObj = mentions(kv.Value, f.recv) && !reparsed
+				}
+			}
+			if !sawM {
+				fail(cl.Pos(), "Bundle literal without a lock")
+			}
+			lits = append(lits, fmt.Sprintf("  (%q, %v, %v)", n, sharesObj, sharesLock))
+			return true
+		})
+	}
+	b.WriteString(strings.Join(lits, ";\n") + "\n].\n\n")
 	var w []string
 	for n := range tokWrites {
 		w = append(w, n)
